@@ -161,7 +161,10 @@ class C01(Property):
             # Record, apply_cluster_rules collecting each gene's neighbourhood itself
             spanning = any(g["loc"]["c"] and g["loc"]["parts"][0][2] * (g["loc"]["parts"][0][0] - g["loc"]["parts"][-1][0]) > 0
                            for g in lay["genes"])
-            if rng.random() < 0.34 and (lay["circ"] or not spanning):
+            # (only conditions of the documented grammar: a minscore/minimum inside cds(...) is evaluated with the
+            # neighbour's own neighbourhood, which the window of apply_cluster_rules may cut — see the example next
+            # to detect_in_window_eq_detect_on_record)
+            if wf and rng.random() < 0.38 and (lay["circ"] or not spanning):
                 with_hits = [g["n"] for g in lay["genes"] if g["hasres"]]
                 if with_hits:
                     case["g"] = rng.choice(with_hits)
